@@ -137,6 +137,9 @@ theorem heap_applyEff_other {c : Nat} {w : World} {e : Eff} (h : EffLocal c e) {
 theorem registry_applyEff (c : Nat) (w : World) (e : Eff) : (applyEff c w e).registry = w.registry := by
   cases e <;> rfl
 
+theorem shallow_applyEff (c : Nat) (w : World) (e : Eff) : (applyEff c w e).shallowGlobals = w.shallowGlobals := by
+  cases e <;> rfl
+
 theorem stores_applyEff_other {c c' : Nat} (w : World) (e : Eff) (h : c' ≠ c) :
     (applyEff c w e).stores c' = w.stores c' := by
   cases e <;> simp [applyEff, updStore, h]
@@ -164,6 +167,25 @@ theorem okVal_applyEff {c c' : Nat} {w : World} {e : Eff} (h : EffLocal c e) {v 
 theorem okShared_applyEff {c : Nat} {w : World} {e : Eff} (h : EffLocal c e) {v : Val} :
     okShared (applyEff c w e) v ↔ okShared w v := by
   cases v <;> simp [okShared, sharedFrozen_applyEff h]
+
+theorem okGlobal_applyEff {c : Nat} {w : World} {e : Eff} (h : EffLocal c e) {v : Val} :
+    okGlobal (applyEff c w e) v ↔ okGlobal w v := by
+  cases v with
+  | ref r =>
+    simp only [okGlobal, sharedFrozen_applyEff h, shallow_applyEff]
+    constructor
+    · rintro (h1 | ⟨h1, h2, o, ho, hk, hf, hx⟩)
+      · exact Or.inl h1
+      · rw [heap_applyEff_other h (by rw [h2]; simp)] at ho
+        exact Or.inr ⟨h1, h2, o, ho, hk, hf, fun x hx' => (okShared_applyEff h).mp (hx x hx')⟩
+    · rintro (h1 | ⟨h1, h2, o, ho, hk, hf, hx⟩)
+      · exact Or.inl h1
+      · refine Or.inr ⟨h1, h2, o, ?_, hk, hf, fun x hx' => (okShared_applyEff h).mpr (hx x hx')⟩
+        rw [heap_applyEff_other h (by rw [h2]; simp)]; exact ho
+  | int _ => simp [okGlobal]
+  | str _ => simp [okGlobal]
+  | flt _ => simp [okGlobal]
+  | none => simp [okGlobal]
 
 theorem stores_isSome_applyEff (c : Nat) (w : World) (e : Eff) (h : (w.stores c).isSome) :
     ((applyEff c w e).stores c).isSome := by
@@ -219,7 +241,7 @@ theorem confined_applyEff {c : Nat} {w : World} {e : Eff} (hc : Confined w) (he 
       rw [heap_applyEff_other hl (by simp)] at ho'
       exact hc.shared i o' ho' hf v hvv
     · intro c' s impl hs hi hlk kv hkv
-      rw [okShared_applyEff hl]
+      rw [okGlobal_applyEff hl]
       exact hc.impls c' s impl hs hi hlk kv hkv
   | bump n =>
     exact ⟨hc.store, hc.own, hc.shared, hc.impls⟩
@@ -282,15 +304,16 @@ theorem confined_applyEffs {c : Nat} : ∀ {effs : List Eff} {w : World}, Confin
 
 /-! ### the frame property: effects of another context do not change `a`'s view -/
 
-theorem viewEq_refl (a : Nat) (w : World) : ViewEq a w w := ⟨rfl, rfl, rfl, fun _ => rfl, fun _ => rfl⟩
+theorem viewEq_refl (a : Nat) (w : World) : ViewEq a w w := ⟨rfl, rfl, rfl, rfl, fun _ => rfl, fun _ => rfl⟩
 
 theorem viewEq_applyEff_other {a c : Nat} {w w' : World} {e : Eff} (hv : ViewEq a w w') (hca : c ≠ a) (hl : EffLocal c e) :
     ViewEq a (applyEff c w e) w' := by
   have hac : a ≠ c := fun h => hca h.symm
-  refine ⟨?_, ?_, ?_, ?_, ?_⟩
+  refine ⟨?_, ?_, ?_, ?_, ?_, ?_⟩
   · rw [stores_applyEff_other _ _ hac]; exact hv.store
   · rw [next_applyEff_other _ _ hac]; exact hv.next
   · rw [registry_applyEff]; exact hv.registry
+  · rw [shallow_applyEff]; exact hv.version
   · intro i
     rw [heap_applyEff_other hl (by simp; exact hac)]; exact hv.own i
   · intro i
@@ -310,7 +333,7 @@ theorem viewEq_applyEff_same {a : Nat} {w w' : World} (e : Eff) (hv : ViewEq a w
     ViewEq a (applyEff a w e) (applyEff a w' e) := by
   cases e with
   | put r o =>
-    refine ⟨hv.store, hv.next, hv.registry, ?_, ?_⟩
+    refine ⟨hv.store, hv.next, hv.registry, hv.version, ?_, ?_⟩
     · intro i; simp only [applyEff]; split
       · rfl
       · exact hv.own i
@@ -318,13 +341,13 @@ theorem viewEq_applyEff_same {a : Nat} {w w' : World} (e : Eff) (hv : ViewEq a w
       · rfl
       · exact hv.shared i
   | bump n =>
-    refine ⟨hv.store, ?_, hv.registry, hv.own, hv.shared⟩
+    refine ⟨hv.store, ?_, hv.registry, hv.version, hv.own, hv.shared⟩
     simp [applyEff, hv.next]
   | bindModule n r =>
-    refine ⟨?_, hv.next, hv.registry, hv.own, hv.shared⟩
+    refine ⟨?_, hv.next, hv.registry, hv.version, hv.own, hv.shared⟩
     simp [applyEff, updStore, hv.store]
   | setBuiltins r =>
-    refine ⟨?_, hv.next, hv.registry, hv.own, hv.shared⟩
+    refine ⟨?_, hv.next, hv.registry, hv.version, hv.own, hv.shared⟩
     simp [applyEff, updStore, hv.store]
 
 theorem viewEq_applyEffs_same {a : Nat} : ∀ (effs : List Eff) {w w' : World}, ViewEq a w w' →
@@ -650,8 +673,80 @@ theorem methodEffs_ok {w : World} {c : Nat} {mref : Ref} (hm : mref.owner = .ctx
       exact Or.inl hm
     · exact methodEffs_ok hm e h
 
+theorem copyOf_some {w : World} {v : Val} {o : Obj} (h : copyOf w v = some o) :
+    ∃ r, v = .ref r ∧ w.shallowGlobals = false ∧ w.heap r = some o ∧ o.kind.container = true ∧ o.frozen = false := by
+  cases v with
+  | ref r =>
+    simp only [copyOf] at h
+    split at h
+    · cases h
+    next hsh =>
+      split at h
+      next o' ho' =>
+        split at h
+        next hcond => cases h; exact ⟨r, rfl, by simpa using hsh, ho', hcond.1, hcond.2⟩
+        · cases h
+      · cases h
+  | int _ => simp [copyOf] at h
+  | str _ => simp [copyOf] at h
+  | flt _ => simp [copyOf] at h
+  | none => simp [copyOf] at h
+
+/-- a Globals value that NewModule does not copy is immutable -/
+theorem okShared_of_copyOf_none {w : World} {v : Val} (hg : okGlobal w v) (h : copyOf w v = Option.none) : okShared w v := by
+  cases v with
+  | ref r =>
+    rcases hg with hg | ⟨hsh, _, o, ho, hk, hf, _⟩
+    · exact hg
+    · simp [copyOf, hsh, ho, hk, hf] at h
+  | int _ => trivial
+  | str _ => trivial
+  | flt _ => trivial
+  | none => trivial
+
+/-- the object NewModule copies holds immutable values only -/
+theorem vals_of_copyOf {w : World} {v : Val} {o : Obj} (hg : okGlobal w v) (h : copyOf w v = some o) :
+    ∀ x ∈ o.vals, okShared w x := by
+  obtain ⟨r, rfl, _, ho, _, hf⟩ := copyOf_some h
+  rcases hg with ⟨_, o', ho', hf'⟩ | ⟨_, _, o', ho', _, _, hx⟩
+  · rw [ho] at ho'; cases ho'; rw [hf] at hf'; cases hf'
+  · rw [ho] at ho'; cases ho'; exact hx
+
+theorem globalsFields_mem {w : World} {c : Nat} : ∀ {gs : List (String × Val)} {base : Nat} {x : String × Val},
+    x ∈ globalsFields w c base gs → (∃ i, x.2 = .ref ⟨.ctx c, i⟩) ∨ (x ∈ gs ∧ copyOf w x.2 = Option.none)
+  | [], _, _, h => by simp [globalsFields] at h
+  | (k, v) :: rest, base, x, h => by
+    unfold globalsFields at h
+    split at h
+    next o ho =>
+      rcases List.mem_cons.mp h with h | h
+      · subst h; exact Or.inl ⟨base, rfl⟩
+      · rcases globalsFields_mem h with h | ⟨h1, h2⟩
+        · exact Or.inl h
+        · exact Or.inr ⟨List.mem_cons_of_mem _ h1, h2⟩
+    next hn =>
+      rcases List.mem_cons.mp h with h | h
+      · subst h; exact Or.inr ⟨List.mem_cons_self, hn⟩
+      · rcases globalsFields_mem h with h | ⟨h1, h2⟩
+        · exact Or.inl h
+        · exact Or.inr ⟨List.mem_cons_of_mem _ h1, h2⟩
+
+theorem globalsEffs_ok {w : World} {c : Nat} : ∀ {gs : List (String × Val)} {base : Nat},
+    (∀ kv ∈ gs, okGlobal w kv.2) → ∀ e ∈ globalsEffs w c base gs, EffOK w c e
+  | [], _, _, e, h => by simp [globalsEffs] at h
+  | (k, v) :: rest, base, hg, e, h => by
+    unfold globalsEffs at h
+    have hrest : ∀ kv ∈ rest, okGlobal w kv.2 := fun kv hkv => hg kv (List.mem_cons_of_mem _ hkv)
+    split at h
+    next o ho =>
+      rcases List.mem_cons.mp h with h | h
+      · subst h
+        exact ⟨rfl, fun x hx => okVal_of_okShared (vals_of_copyOf (hg (k, v) List.mem_cons_self) ho x hx)⟩
+      · exact globalsEffs_ok hrest e h
+    next => exact globalsEffs_ok hrest e h
+
 theorem newModuleEffs_ok {w : World} {c : Nat} {impl : Impl} (hs : (w.stores c).isSome)
-    (hg : ∀ kv ∈ impl.globals, okShared w kv.2) :
+    (hg : ∀ kv ∈ impl.globals, okGlobal w kv.2) :
     (newModuleEffs w c impl).1.owner = .ctx c ∧ ∀ e ∈ (newModuleEffs w c impl).2, EffOK w c e := by
   refine ⟨rfl, ?_⟩
   intro e he
@@ -659,19 +754,23 @@ theorem newModuleEffs_ok {w : World} {c : Nat} {impl : Impl} (hs : (w.stores c).
   rcases List.mem_append.mp he with he | he
   · rcases List.mem_append.mp he with he | he
     · rcases List.mem_append.mp he with he | he
-      · simp at he; subst he
-        refine ⟨rfl, ?_⟩
-        intro v hv
-        simp only [Obj.vals, List.append_nil] at hv
-        rcases List.mem_map.mp hv with ⟨kv, hkv, rfl⟩
-        rcases mem_setFields hkv with h | h
-        · simp at h
-          rcases h with h | h | h <;> subst h <;> trivial
-        · rcases mem_setFields h with h | h
-          · obtain ⟨i, hi⟩ := methodRefs_mem h
-            rw [hi]; exact Or.inl rfl
-          · exact okVal_of_okShared (hg kv h)
-      · exact methodEffs_ok rfl e he
+      · rcases List.mem_append.mp he with he | he
+        · simp at he; subst he
+          refine ⟨rfl, ?_⟩
+          intro v hv
+          simp only [Obj.vals, List.append_nil] at hv
+          rcases List.mem_map.mp hv with ⟨kv, hkv, rfl⟩
+          rcases mem_setFields hkv with h | h
+          · simp at h
+            rcases h with h | h | h <;> subst h <;> trivial
+          · rcases mem_setFields h with h | h
+            · obtain ⟨i, hi⟩ := methodRefs_mem h
+              rw [hi]; exact Or.inl rfl
+            · rcases globalsFields_mem h with ⟨i, hi⟩ | ⟨hm, hn⟩
+              · rw [hi]; exact Or.inl rfl
+              · exact okVal_of_okShared (okShared_of_copyOf_none (hg kv hm) hn)
+        · exact methodEffs_ok rfl e he
+      · exact globalsEffs_ok hg e he
     · simp at he
       rcases he with rfl | rfl
       · trivial
@@ -680,9 +779,44 @@ theorem newModuleEffs_ok {w : World} {c : Nat} {impl : Impl} (hs : (w.stores c).
     · rw [if_pos hb] at he; simp at he; subst he; exact ⟨rfl, hs⟩
     · rw [if_neg hb] at he; simp at he
 
-theorem newModuleEffs_congr {a : Nat} {w w' : World} (hvw : ViewEq a w w') (impl : Impl) :
+theorem copyOf_congr {a : Nat} {w w' : World} (hvw : ViewEq a w w') {v : Val} (hg : okGlobal w v) :
+    copyOf w v = copyOf w' v := by
+  cases v with
+  | ref r =>
+    have hown : r.owner = .shared := by
+      rcases hg with ⟨h, _⟩ | ⟨_, h, _⟩ <;> exact h
+    obtain ⟨ow, i⟩ := r
+    simp at hown; subst hown
+    simp only [copyOf, hvw.version, hvw.shared i]
+  | int _ => rfl
+  | str _ => rfl
+  | flt _ => rfl
+  | none => rfl
+
+theorem globals_congr {a : Nat} {w w' : World} (hvw : ViewEq a w w') (c : Nat) :
+    ∀ (gs : List (String × Val)) (base : Nat), (∀ kv ∈ gs, okGlobal w kv.2) →
+      globalsFields w c base gs = globalsFields w' c base gs ∧ globalsEffs w c base gs = globalsEffs w' c base gs ∧
+      globalsCount w gs = globalsCount w' gs
+  | [], _, _ => ⟨rfl, rfl, rfl⟩
+  | (k, v) :: rest, base, hg => by
+    have hrest : ∀ kv ∈ rest, okGlobal w kv.2 := fun kv hkv => hg kv (List.mem_cons_of_mem _ hkv)
+    have hcv := copyOf_congr hvw (hg (k, v) List.mem_cons_self)
+    simp only at hcv
+    unfold globalsFields globalsEffs globalsCount
+    rw [← hcv]
+    cases copyOf w v with
+    | some o =>
+      have ih := globals_congr hvw c rest (base + 1) hrest
+      simp only [ih.1, ih.2.1, ih.2.2, and_self]
+    | none =>
+      have ih := globals_congr hvw c rest base hrest
+      simp only [ih.1, ih.2.1, ih.2.2, and_self]
+
+theorem newModuleEffs_congr {a : Nat} {w w' : World} (hvw : ViewEq a w w') (impl : Impl)
+    (hg : ∀ kv ∈ impl.globals, okGlobal w kv.2) :
     newModuleEffs w a impl = newModuleEffs w' a impl := by
-  simp only [newModuleEffs, freshRef, hvw.next]
+  have h := globals_congr hvw a impl.globals (w'.next a + 1 + impl.methods.length) hg
+  simp only [newModuleEffs, freshRef, hvw.next, h.1, h.2.1, h.2.2]
 
 theorem findImpl_some {reg : List Impl} {name : String} {impl : Impl} (h : findImpl reg name = some impl) :
     impl ∈ reg ∧ impl.name = name := by
@@ -879,7 +1013,7 @@ theorem plan_congr {a : Nat} {w w' : World} (hc : Confined w) (hvw : ViewEq a w 
       | none => rfl
   | imp name =>
     simp only [plan, ← hvw.store, ← mainOf_congr hc hvw, ← hvw.registry]
-    cases w.stores a with
+    cases hs : w.stores a with
     | none => rfl
     | some s =>
       cases mainOf w a with
@@ -887,12 +1021,15 @@ theorem plan_congr {a : Nat} {w w' : World} (hc : Confined w) (hvw : ViewEq a w 
       | some mm =>
         obtain ⟨m, mo⟩ := mm
         simp only
-        cases s.modules.lookup name with
+        cases hl : s.modules.lookup name with
         | some r => rfl
         | none =>
           simp only
-          cases findImpl w.registry name with
+          cases hf : findImpl w.registry name with
           | none => rfl
-          | some impl => simp only [newModuleEffs_congr hvw]
+          | some impl =>
+            have ⟨hreg, hname⟩ := findImpl_some hf
+            have hg := hc.impls a s impl hs hreg (by rw [hname]; exact hl)
+            simp only [newModuleEffs_congr hvw impl hg]
 
 end GPy.C08
